@@ -1,6 +1,12 @@
 import CnbVerif.Spec.Frame
 /-! Driver glue for C11: parse a tree and a request, run the model, render result + snapshots; judge the
-implementation's two snapshots with `Spec.Frame.judgeRequest`. -/
+implementation's two snapshots with `Spec.Frame.judgeRequest`.
+
+Hard links: the tree entry `H:<path>:<target path>` makes `<path>` another name of the regular file `F:<target path>:…`
+(which must be an `F` entry of the same tree); that file and all the `H` entries naming it become `Node.hard i mode
+content` with `i` the position of the `F` entry. A snapshot line of a regular file whose link count is not 1 carries it
+as a fifth field `n<count>`; the model renders the number of names its state holds for the inode. The link count is
+compared between model and implementation, it is not part of the node the specification compares. -/
 namespace CnbVerif.DriverC11
 open CnbVerif CnbVerif.RmTree
 
@@ -15,6 +21,18 @@ def parseOct (s : String) : Option Nat :=
 
 def parseHexOrDash (s : String) : Option Bytes := if s = "-" then some [] else hexDecode s
 
+def parseDec (s : String) : Option Nat :=
+  if s = "" then none else
+  s.toList.foldl (fun acc c => match acc with
+    | none => none
+    | some n => if '0' ≤ c ∧ c ≤ '9' then some (n * 10 + (c.toNat - 48)) else none) (some 0)
+
+/-- the link count field of a snapshot line: `n<decimal>` -/
+def parseNlink (s : String) : Option Nat :=
+  match s.toList with
+  | 'n' :: ds => parseDec (String.ofList ds)
+  | _ => none
+
 def parseEntry (sep : String) (s : String) : Option (Path × Node) :=
   match s.splitOn sep with
   | ["D", p, m] => match parsePath p, parseOct m with
@@ -23,6 +41,9 @@ def parseEntry (sep : String) (s : String) : Option (Path × Node) :=
   | ["F", p, m, c] => match parsePath p, parseOct m, parseHexOrDash c with
     | some p, some m, some c => some (p, .file m c)
     | _, _, _ => none
+  | ["F", p, m, c, nl] => match parsePath p, parseOct m, parseHexOrDash c, parseNlink nl with
+    | some p, some m, some c, some _ => some (p, .file m c)   -- a snapshot line with its link count
+    | _, _, _, _ => none
   | ["L", p, t] => match parsePath p, hexDecode t with
     | some p, some t => if t = [] then none else some (p, .link t)
     | _, _ => none
@@ -30,6 +51,44 @@ def parseEntry (sep : String) (s : String) : Option (Path × Node) :=
 
 def parseTree (sep : String) (s : String) (entrySep : String) : Option FS :=
   allSome ((splitList s entrySep).map (parseEntry sep))
+
+/-- an entry of the input tree: a node, or a further name (hard link) of a regular file entered elsewhere in the tree -/
+inductive Raw
+  | node (p : Path) (v : Node)
+  | hl (p : Path) (target : Path)
+
+def parseRaw (s : String) : Option Raw :=
+  match s.splitOn ":" with
+  | ["H", p, t] => match parsePath p, parsePath t with
+    | some p, some t => some (.hl p t)
+    | _, _ => none
+  | ["F", _, _, _, _] => none   -- link counts belong to snapshots, not to input trees
+  | _ => (parseEntry ":" s).map (fun kv => .node kv.1 kv.2)
+
+/-- position, mode and content of the `F` entry at path `t` -/
+def findFile (t : Path) : List Raw → Nat → Option (Nat × Nat × Bytes)
+  | [], _ => none
+  | .node p (.file m c) :: r, i => if p = t then some (i, m, c) else findFile t r (i + 1)
+  | _ :: r, i => findFile t r (i + 1)
+
+def isTarget (t : Path) (raws : List Raw) : Bool :=
+  raws.any (fun r => match r with | .hl _ t' => decide (t' = t) | _ => false)
+
+/-- entries → state: a file that is the target of an `H` entry, and every `H` entry naming it, are names of one inode -/
+def resolveRaws (all : List Raw) : List Raw → Nat → Option FS
+  | [], _ => some []
+  | .node p (.file m c) :: r, i =>
+    (resolveRaws all r (i + 1)).map (fun fs => (p, if isTarget p all then Node.hard i m c else .file m c) :: fs)
+  | .node p v :: r, i => (resolveRaws all r (i + 1)).map (fun fs => (p, v) :: fs)
+  | .hl p t :: r, i =>
+    match findFile t all 0 with
+    | none => none
+    | some (j, m, c) => (resolveRaws all r (i + 1)).map (fun fs => (p, Node.hard j m c) :: fs)
+
+def parseInputTree (s : String) : Option FS :=
+  match allSome ((splitList s ";").map parseRaw) with
+  | none => none
+  | some raws => resolveRaws raws raws 0
 
 def nodupKeys : FS → Bool
   | [] => true
@@ -49,13 +108,19 @@ def pathLt : Path → Path → Bool
   | _ :: _, [] => false
   | a :: as, b :: bs => if bytesLt a b then true else if bytesLt b a then false else pathLt as bs
 
-def renderNode (p : Path) : Node → String
+/-- number of names the state holds for inode `i` -/
+def nlinkOf (fs : FS) (i : Nat) : Nat :=
+  (fs.filter (fun kv => match kv.2 with | .hard j _ _ => decide (j = i) | _ => false)).length
+
+def renderNode (fs : FS) (p : Path) : Node → String
   | .dir m => "D " ++ renderPath p ++ " " ++ toOct m
   | .file m c => "F " ++ renderPath p ++ " " ++ toOct m ++ " " ++ (if c = [] then "-" else hexEncode c)
   | .link t => "L " ++ renderPath p ++ " " ++ hexEncode t
+  | .hard i m c => "F " ++ renderPath p ++ " " ++ toOct m ++ " " ++ (if c = [] then "-" else hexEncode c) ++
+      (if nlinkOf fs i = 1 then "" else " n" ++ toString (nlinkOf fs i))
 
 def renderSnap (fs : FS) : String :=
-  joinWith "|" ((sortBy (fun a b => pathLt a.1 b.1) fs).map (fun kv => renderNode kv.1 kv.2))
+  joinWith "|" ((sortBy (fun a b => pathLt a.1 b.1) fs).map (fun kv => renderNode fs kv.1 kv.2))
 
 def parseApi (s : String) : Option Api :=
   if s = "U" then some .uncached else if s = "C" then some .cached else if s = "T" then some .handle else none
@@ -89,7 +154,7 @@ def handle (fields : List String) (obs : String) : String × String :=
   match fields with
   | [apiS, uidS, nameS, treeS] =>
     match parseApi apiS, (if uidS = "root" then some true else if uidS = "user" then some false else none),
-        hexDecode nameS, parseTree ":" treeS ";" with
+        hexDecode nameS, parseInputTree treeS with
     | some api, some root, some n, some fs =>
       if n = [] ∨ !buildable fs then ("bad-op", "bad-op") else
       let r := request root api fs n
